@@ -31,9 +31,32 @@ Definition agrees (c : case) : bool :=
 Definition mismatches (cs : list case) : list N :=
   map id (filter (fun c => negb (agrees c)) cs).
 
-(* the property on the implementation's observation: no panic, whatever was delivered *)
+(* the property on the implementation's observation, three clauses:
+     panic:<entry>         the call panicked / the process died, whatever was delivered
+     no-error-on-hostile   the input is certainly invalid (its summary fixes the result class "error":
+                           bad digest / signature / amount, missing members, undecodable or oversized or
+                           truncated frames, failing reads, peer ids without an address) and the call
+                           returned without an error: the exchange did not end with an error or a reset
+     not-serving           end to end: after the hostile exchange an honest peer could not complete its
+                           handshake and be registered: the node no longer serves other peers
+     data-race             end to end under the race detector (thorough tier): an unsynchronised access in
+                           repository code was reported although the process survived (result class 3); races
+                           on a Go map are observed as a crash instead (the runtime aborts on them)
+   Result class 2 (not classified by the driver) fires none of these. *)
+Definition is_e2e (i : entry_input) : bool :=
+  match i with EE2EInbound _ _ | EE2EOutbound _ _ | EE2EStress _ => true | _ => false end.
+
 Definition violation (c : case) : option string :=
-  if observed_panic c then Some (panic_key (inp c)) else None.
+  match obs c with
+  | OPanic => Some (panic_key (inp c))
+  | ONoPanic r =>
+      if is_e2e (inp c) then (if r =? 1 then Some "not-serving"%string
+                              else if r =? 3 then Some "data-race"%string else None)
+      else match expected_result (inp c) with
+           | Some 1 => if r =? 0 then Some "no-error-on-hostile"%string else None
+           | _ => None
+           end
+  end.
 
 Definition violations (cs : list case) : list (N * string) :=
   flat_map (fun c => match violation c with Some k => [(id c, k)] | None => [] end) cs.
